@@ -131,6 +131,8 @@ pub struct RunCfg {
     pub count: u64,
     pub max_violations: usize,
     pub wall_limit_s: f64,
+    /// run indices are k*stride for k in 0..count (1 = the plain batch)
+    pub stride: u64,
 }
 
 /// Run `count` base scenarios of family `f` over `workers` threads. The result does not
@@ -150,12 +152,13 @@ pub fn run_family<F: Family>(f: &F, cfg: &RunCfg) -> Agg {
                     if stop.load(Ordering::Relaxed) {
                         break;
                     }
-                    let idx = next.fetch_add(1, Ordering::Relaxed);
-                    if idx >= cfg.count {
+                    let k = next.fetch_add(1, Ordering::Relaxed);
+                    if k >= cfg.count {
                         break;
                     }
+                    let idx = k * cfg.stride.max(1);
                     // the wall limit is a safety net for the batch, never part of a verdict
-                    if idx % 64 == 0 && start.elapsed().as_secs_f64() > cfg.wall_limit_s {
+                    if k % 64 == 0 && start.elapsed().as_secs_f64() > cfg.wall_limit_s {
                         stop.store(true, Ordering::Relaxed);
                         break;
                     }
